@@ -27,9 +27,10 @@ package matrix
 //@   ensures [C20,C12] product: forall r int, c int :: 0 <= r && r < 3 && 0 <= c && c < 3 ==> result[c][r] == m[0][r]*o[c][0] + m[1][r]*o[c][1] + m[2][r]*o[c][2]
 
 //@ func Matrix3.Inverse
+//@   pure
 //@   mode real
 //@   modular
-//@   panics_when [C20,C12] singular: m[0][0]*(m[1][1]*m[2][2] - m[2][1]*m[1][2]) - m[1][0]*(m[0][1]*m[2][2] - m[2][1]*m[0][2]) + m[2][0]*(m[0][1]*m[1][2] - m[1][1]*m[0][2]) == 0
+//@   panics_when [C20,C12] singular: det3(m) == 0
 //@   ensures [C20,C12] right-inverse: forall r int, c int :: 0 <= r && r < 3 && 0 <= c && c < 3 ==> m[0][r]*result[c][0] + m[1][r]*result[c][1] + m[2][r]*result[c][2] == ite(r == c, 1.0, 0.0)
 //@   ensures [C20,C12] left-inverse: forall r int, c int :: 0 <= r && r < 3 && 0 <= c && c < 3 ==> result[0][r]*m[c][0] + result[1][r]*m[c][1] + result[2][r]*m[c][2] == ite(r == c, 1.0, 0.0)
 
